@@ -1,5 +1,6 @@
 """C06 - every value shown in a violation message is the value Python computes."""
 import atexit
+import builtins
 import importlib.util
 import inspect
 import os
@@ -92,6 +93,9 @@ def parse_message(msg: str, cond_text: str) -> Optional[Tuple[List[Tuple[str, in
             continue
         return None
     return values, alls
+
+
+_MISSING = object()
 
 
 def _same(a: Any, b: Any) -> bool:
@@ -199,8 +203,8 @@ def judge(mod: Any, eid: int, args: Tuple[Any, ...], strict_error: bool, strict_
         if kind in ("name", "attr", "call", "subscript", "comp", "named"):
             if _unrepresentable(value):
                 continue
-            if kind == "name" and text in dir(__builtins__ if isinstance(__builtins__, types.ModuleType) else object) and text not in params:
-                continue
+            if kind == "name" and text not in params and getattr(builtins, text, _MISSING) is value:
+                continue  # the built-in itself (a variable that merely shadows a built-in name must be listed)
             if text not in shown:
                 ok = False
     used_free = set()
